@@ -1359,6 +1359,9 @@ where
     trace!("Reading BPB");
     let block = block_cache.read(lba_start).map_err(Error::DeviceError)?;
     let bpb = Bpb::create_from_bytes(block).map_err(Error::FormatError)?;
+    if lba_start.0.checked_add(bpb.total_blocks()).is_none() {
+        return Err(Error::FormatError("Volume does not fit the device"));
+    }
     let fat_start = BlockCount(u32::from(bpb.reserved_block_count()));
     let second_fat_start = if bpb.num_fats() == 2 {
         Some(fat_start + BlockCount(bpb.fat_size()))
@@ -1403,6 +1406,9 @@ where
                 fat_start + BlockCount(u32::from(bpb.num_fats()) * bpb.fat_size());
             // Safe to unwrap since this is a Fat32 Type
             let info_location = bpb.fs_info_block().unwrap();
+            if info_location.0 >= bpb.total_blocks() {
+                return Err(Error::FormatError("Bad FS info location"));
+            }
             let mut volume = FatVolume {
                 lba_start,
                 num_blocks,
